@@ -103,6 +103,19 @@ pub fn run(case: &Term) -> Term {
     let rcall = interp.eval_value(&Value::from(Value::from(call).as_str()));
     let level = interp.scope_level();
     let calls: Vec<Term> = interp.context::<Recorder>(ctx).calls.iter().map(|c| tstrs(c)).collect();
+    // the same call with its integer, empty and list arguments passed as computed data must bind
+    // the same strings
+    let mut argv: Vec<String> = vec!["p".to_string()];
+    argv.extend(case.nth(1).strs());
+    if let Some(t) = typed_call(&argv, 1) {
+        let (mut interp2, ctx2) = harness_interp(0);
+        let _ = interp2.eval_value(&Value::from(def.as_str()));
+        let rcall2 = interp2.eval(&t);
+        let calls2: Vec<Term> = interp2.context::<Recorder>(ctx2).calls.iter().map(|c| tstrs(c)).collect();
+        if obs_result(&rcall2) != obs_result(&rcall) || calls2 != calls {
+            return tag("TYPED-ARGUMENTS-DIFFER", vec![obs_result(&rcall), ts(&t), obs_result(&rcall2), tl(calls2)]);
+        }
+    }
     // introspection
     let iargs = obs_result(&interp.eval("info args p"));
     let ibody = obs_result(&interp.eval("info body p"));
